@@ -1,5 +1,5 @@
 SPECIFICATION Spec
-CONSTANTS MaxFeat = 3 MaxRows = 3 MaxProt = 4 Mut_EndOffByOne = FALSE Mut_KeepDD = FALSE Mut_ValidSkipsDD = FALSE
+CONSTANTS ProtSep = ":" MaxFeat = 3 MaxRows = 3 MaxProt = 4 Mut_EndOffByOne = FALSE Mut_KeepDD = FALSE Mut_ValidSkipsDD = FALSE
 INVARIANT InputsInDomain
 INVARIANT ConvertIsDef
 INVARIANT SameHeaderInv
